@@ -2,6 +2,7 @@ package worldeng
 
 import (
 	"bytes"
+	"context"
 	"fmt"
 	"testing"
 	"time"
@@ -25,8 +26,12 @@ func genC06(r *kernel.Rand, tier string) *kernel.Scenario {
 	c["accept_pct"] = int64([]int{100, 80, 50}[r.Intn(3)])
 	nch := 1 + r.Weighted([]int{5, 3, 2})
 	// configuration: 0 token (liveness oracle), 1 free concurrency, 2 relaxed with faults
-	mode := r.Weighted([]int{5, 3, 2})
+	// 3 restart: persisted clients, one of them crashes (only its store survives) and is restarted
+	mode := r.Weighted([]int{5, 3, 2, 2})
 	c["mode"] = int64(mode)
+	if mode == 3 {
+		c["persist"] = 1
+	}
 	c["ctx_ms"] = 20000
 	if mode == 2 {
 		switch r.Intn(3) {
@@ -50,10 +55,20 @@ func genC06(r *kernel.Rand, tier string) *kernel.Scenario {
 		if mode == 0 {
 			st.A["token"] = 1
 			st.A["async"] = int64(r.Intn(2))
+		} else if mode == 3 {
+			st.A["async"] = int64(r.Weighted([]int{3, 1}))
 		} else {
 			st.A["async"] = int64(r.Weighted([]int{1, 2}))
 		}
 		sc.Steps = append(sc.Steps, st)
+	}
+	if mode == 3 {
+		// crash points: between updates (after a synchronous step) or while one is in flight (after an asynchronous one)
+		for k := r.Range(1, 2); k > 0; k-- {
+			pos := nch + r.Intn(len(sc.Steps)-nch+1)
+			cr := kernel.St("crash", "side", r.Intn(2), "delay_us", []int{0, 20, 150, 1000}[r.Intn(4)], "down_us", []int{10, 500, 5000}[r.Intn(3)])
+			sc.Steps = append(sc.Steps[:pos], append([]kernel.Step{cr}, sc.Steps[pos:]...)...)
+		}
 	}
 	return sc
 }
@@ -65,9 +80,9 @@ func execC06(t *testing.T, sc *kernel.Scenario, trace bool) *kernel.Result {
 		defer removeYields()
 		mode := sc.Cfg("mode", 0)
 		// every Enabled event: fully signed; versions of the two sides differ by at most one
-		for i := range p.n {
-			side := i
-			p.n[i].Rec.OnEnable = func(r world.EnabledRec) {
+		var hookEnable func(side int)
+		hookEnable = func(side int) {
+			p.n[side].Rec.OnEnable = func(r world.EnabledRec) {
 				if !r.SigsOK {
 					s.Fail("C06.enabled-not-fully-signed", "%s enabled %s v%d without a complete set of valid signatures", p.n[side].Name, s.ChanName(r.Ch), r.Version)
 				}
@@ -88,11 +103,15 @@ func execC06(t *testing.T, sc *kernel.Scenario, trace bool) *kernel.Result {
 				}
 			}
 		}
+		hookEnable(0)
+		hookEnable(1)
 		for i := range sc.Steps {
 			st := &sc.Steps[i]
 			switch st.Op {
 			case "open":
 				p.open(i, int(st.Int("from"))&1, st)
+			case "crash":
+				p.crashRestart(i, st, hookEnable)
 			case "pay":
 				k := int(st.Int("ch"))
 				p.mu.Lock()
@@ -102,7 +121,12 @@ func execC06(t *testing.T, sc *kernel.Scenario, trace bool) *kernel.Result {
 					continue
 				}
 				side := int(st.Int("from")) & 1
+				p.mu.Lock()
 				ch := p.chans[k][side]
+				p.mu.Unlock()
+				if ch == nil {
+					continue // lost in a crash (never restored)
+				}
 				to := time.Duration(st.Int("timeout_ms")) * time.Millisecond
 				if to <= 0 {
 					to = 20 * time.Second
@@ -167,7 +191,7 @@ func checkC06(p *pair, sc *kernel.Scenario) {
 			}
 		}
 	}
-	strict := mode != 2 && !timedOut
+	strict := mode != 2 && mode != 3 && !timedOut
 	if mode == 0 && nTO > 0 {
 		// (6) token configuration: reliable delivery, one pending proposal per
 		// channel, contexts far longer than all delays -> nothing may time out
@@ -284,4 +308,56 @@ func checkC06(p *pair, sc *kernel.Scenario) {
 	if nOK > 0 && (nRej > 0 || concurrent) {
 		s.Res.NonTrivial = true
 	}
+}
+
+// crashRestart crashes one client at a drawn instant (only its store
+// survives), keeps it down for a while, restarts it from a copy of the store
+// as of the crash and re-attaches the restored channel controllers.
+func (p *pair) crashRestart(step int, st *kernel.Step, hookEnable func(side int)) {
+	s := p.s
+	side := int(st.Int("side")) & 1
+	old := p.n[side]
+	if old.DB == nil {
+		return
+	}
+	time.Sleep(time.Duration(st.Int("delay_us"))*time.Microsecond + s.Delay(fmt.Sprintf("crash:delay:%d", step), 0, time.Microsecond))
+	// was anything in flight on this pair at the crash instant? (omniscient driver)
+	p.mu.Lock()
+	inflight := false
+	for _, o := range p.ops {
+		_ = o
+	}
+	p.mu.Unlock()
+	snap := old.Crash()
+	s.Count("fault.crash_restart", 1)
+	time.Sleep(time.Duration(st.Int("down_us"))*time.Microsecond + s.Delay(fmt.Sprintf("crash:down:%d", step), 0, time.Microsecond))
+	// the store as of the crash: every channel's current transaction must be fully signed
+	nn, err := old.Restart(snap)
+	if err != nil {
+		s.Fail("C06.restore-failed", "restoring %s from its store failed: %v", old.Name, err)
+		return
+	}
+	p.installPolicies(nn)
+	p.n[side] = nn
+	hookEnable(side)
+	p.mu.Lock()
+	for k, id := range p.ids {
+		p.chans[k][side] = nn.Chan(id) // nil if the store had no complete record of it yet
+	}
+	p.mu.Unlock()
+	for _, ch := range nn.Chans {
+		rc, err := nn.Rec.PersistRestorer.RestoreChannel(context.Background(), ch.ID())
+		if err != nil {
+			s.Fail("C06.restored-channel-unreadable", "%s: RestoreChannel(%s) failed right after Restore: %v", nn.Name, s.ChanName(ch.ID()), err)
+			return
+		}
+		if cur := rc.CurrentTX(); cur.State != nil {
+			if world.VerifyAll(rc.Params(), cur.State, cur.Sigs) != nil {
+				s.Fail("C06.restored-current-not-fully-signed", "%s restored %s v%d whose current transaction is not fully signed", nn.Name, s.ChanName(ch.ID()), cur.Version)
+				return
+			}
+		}
+	}
+	_ = inflight
+	s.Count("probe.channels_restored", int64(len(nn.Chans)))
 }
